@@ -10,6 +10,7 @@ import (
 	"strconv"
 	"strings"
 	"sync"
+	"time"
 
 	"github.com/bolkedebruin/rdpgw/cmd/rdpgw/protocol"
 )
@@ -263,5 +264,73 @@ func streamC16gw(env *runEnv) {
 		}
 		g.stop()
 		fa.stop()
+	}
+}
+
+func init() { streams["c16order"] = streamC16order }
+
+// streamC16order: a host that talks first (a banner on accept, as ssh, vnc or smtp do): the packet that
+// answers CHANNEL_CREATE is the channel response, and only then does host data follow, for every one of
+// many tunnels set up at once on both transports.
+func streamC16order(env *runEnv) {
+	srv := newL2Server(false, 0)
+	defer srv.close()
+	per := 120
+	if env.thorough() {
+		per = 1200
+	}
+	for _, transport := range []string{"ws", "legacy"} {
+		var mu sync.Mutex
+		verdict := "exact"
+		var wg sync.WaitGroup
+		for w := 0; w < 16; w++ {
+			wg.Add(1)
+			go func(w int) {
+				defer wg.Done()
+				for k := 0; k < per; k++ {
+					b := newTagBackend([]byte("SSH-2.0-banner-on-accept\r\n"))
+					b.piece, b.pace = 64, 0
+					host, port := splitHostPort(b.addr)
+					c, err := openTunnel(srv.inst, tunnelScript{transport: transport, id: fmt.Sprintf("{c16order-%d-%s-%d-%d}", env.seed, transport, w, k)})
+					if err != nil {
+						b.close()
+						continue
+					}
+					v := "exact"
+					for i, p := range [][]byte{
+						packet(ptHandshake, handshakeBody(1, 0, 0, 0)),
+						packet(ptTunnelCreate, tunnelCreateBody(0, "", false)),
+						packet(ptTunnelAuth, tunnelAuthBody("pc")),
+						packet(ptChannelCreate, channelCreateBody(host, port)),
+					} {
+						c.send(p)
+						if transport == "legacy" {
+							time.Sleep(5 * time.Millisecond)
+						}
+						m, err := c.recv(3 * time.Second)
+						want := []int{2, 5, 7, 9}[i]
+						if err != nil {
+							v = fmt.Sprintf("no-answer-to-request-%d", i)
+							break
+						}
+						if got := int(m[0]) | int(m[1])<<8; got != want {
+							v = fmt.Sprintf("request-%d-answered-by-packet-type-%d-instead-of-%d", i, got, want)
+							break
+						}
+					}
+					c.close()
+					b.close()
+					if v != "exact" {
+						mu.Lock()
+						verdict = v
+						mu.Unlock()
+						return
+					}
+				}
+			}(w)
+		}
+		wg.Wait()
+		env.count("c16order." + transport + "." + strings.SplitN(verdict, "-", 2)[0])
+		env.emit("exact", fmt.Sprintf("every-request-answered-by-its-own-response-%d-tunnels-%s-host-talks-first", 16*per, transport), verdict)
 	}
 }
